@@ -209,6 +209,7 @@ pub fn run(tier: Tier) -> i32 {
     let ctx = Ctx::new("C15", tier);
     let (nw, k, nw2, k2) = tier.pick((14usize, 3usize, 9usize, 4usize), (13, 4, 7, 5));
     let kla = tier.pick(7usize, 9usize);
+    let rmax = tier.pick(24usize, 200usize);
     let thrs_wide: Vec<f64> = vec![0.0, 10.0, 5.0, f64::NAN];
     let thrs_deep: Vec<f64> = vec![0.0, 10.0];
     let mut total = Acc::new();
@@ -233,12 +234,14 @@ pub fn run(tier: Tier) -> i32 {
                 one_stream(&ctx, acc, l, &lang, syms, &thrs_deep)
             }
         }));
+        // long streams: every pattern of <= 3 of those symbols repeated r times
+        total.merge(explore::all_repetitions(&la, 3, 2..=rmax, |syms, acc| one_stream(&ctx, acc, l, &lang, syms, &thrs_deep)));
         total.sample(json!({"lang": l.code(), "stream": [a[0], a[nw + 1], a[2 * nw + 2]]}));
     }
     let cov = json!({
         "exhaustive": true,
         "rule": "every token stream of length <= k where each token is plain, '~' (unrelated to its predecessor) or '!' (not a number part); lazy iterator compared with batch search, pulls on the underlying stream counted, '~' compared with an inserted comma; non-trivial = streams with at least one number",
-        "bounds": {"wide_words": nw, "wide_depth": k, "deep_words": nw2, "deep_depth": k2, "decorations": 3, "lookahead_symbols": 7, "lookahead_depth": kla},
+        "bounds": {"wide_words": nw, "wide_depth": k, "deep_words": nw2, "deep_depth": k2, "decorations": 3, "lookahead_symbols": 7, "lookahead_depth": kla, "long_streams": {"pattern_depth": 3, "repetitions_up_to": rmax}},
         "thresholds_wide": thrs_wide.iter().map(|t| thr_name(*t)).collect::<Vec<_>>(),
         "thresholds_deep": thrs_deep.iter().map(|t| thr_name(*t)).collect::<Vec<_>>(),
         "alphabets": alphas,
